@@ -100,7 +100,7 @@ def check(tier, seed):
             if not any(s >= int(SchemaChangeSeverity.BREAKING) for _c, _m, s in ch):
                 new_schema = build_schema(b)
                 old_s = build_schema(a)
-                for o, doc in zip(schemas.OPERATIONS, ops):
+                for o, doc in list(zip(schemas.OPERATIONS, ops)) + [(o_, parse(o_)) for o_ in schemas.EDIT_OPERATIONS]:
                     try:
                         if validate_ast(old_s, doc).errors:
                             continue       # not valid against this 'old' schema (backward direction)
@@ -111,7 +111,7 @@ def check(tier, seed):
                     if errs:
                         run.violation("diff_schema:no-breaking-implies-operations-stay-valid",
                                       "edit %s (%s): no BREAKING change reported, but %r is valid before and invalid after: %s"
-                                      % (label, direction, o, errs[0]), dict(w, operation=o, changes=ch[:6]), True)
+                                      % (label, direction, o, errs[0]), dict(w, operation=o, changes=ch[:6], error=str(errs[0])), True)
                         break
             # independence from definition order
             pb = permute_definitions(b, rnd)
